@@ -1127,6 +1127,21 @@ func internTransparent(w *World, tname, path string) string {
 						good = true
 					}
 				}
+				// … or rv = tbl[i] with i = slices.Index(tbl, param): equal to the parameter by the
+				// definition of slices.Index (i == -1 would panic, not answer)
+				if !good {
+					if u, ok := rv.(*ssa.UnOp); ok {
+						if ia, ok := u.X.(*ssa.IndexAddr); ok {
+							if c, ok := unspill(ia.Index).(*ssa.Call); ok {
+								if f := calleeFunc(c); f != nil && f.Pkg() != nil && f.Pkg().Path() == "slices" && f.Name() == "Index" && len(c.Call.Args) == 2 {
+									if _, isP := unspill(c.Call.Args[1]).(*ssa.Parameter); isP && sameValue(unspill(c.Call.Args[0]), unspill(ia.X)) {
+										good = true
+									}
+								}
+							}
+						}
+					}
+				}
 				if !good {
 					okAll = false
 				}
